@@ -67,6 +67,12 @@ CLAIMED = {
              "`goStmt_fresh`, `goStmt_persist`). Converse `Vars.no_false_e482`: whenever a function's analysis reports E482 its body "
              "contains, in textual order, `goto l`, the declaration of the used variable, `l:` (no other `l:` in between) and the use "
              "(the walk is a fold over the body's events, `goStmt_run`; history invariant `TInv` preserved by every event, `step_inv`). "
+             "Soundness for executions, `Vars.accepted_runs_initialised`: a function on which the models of the variable scoper, the "
+             "label scoper and the placement analyzer raise nothing never reaches - in any run of a goto/label/loop semantics with "
+             "oracle-driven conditions, any fuel, any number of loop rounds - a statement mentioning a variable whose declaration has "
+             "not been executed in the current activation of its block (`Vars.sound`: the state of the single static pass at a "
+             "program point is `Good` for every run at that point; `SkipInv`/`skip_to_label` for the statements a jump goes over; "
+             "`lwf_list`: a pending label cannot occur inside a block that starts meanwhile, from C04 acceptance). "
              "Both directions are also checked three-way (real compiler vs model vs an independent must-declared CFG analysis) "
              "on exhaustive small scopes and random bodies.",
         note="Trusted: Lean kernel (+propext), transcription of variable_references.rs (checked by correspondence on the code multiset "
